@@ -1014,6 +1014,24 @@ def _floor_reader(ctx: Ctx, fi: FuncInfo, s: Summary) -> Tuple[List[str], Option
             pr.append(f"entry test is {[T.show(x) for x in g]} instead of key <= time")
     default = dict(M[3]).get("default")
     if default is None:
+        # max() without default is fine when the candidates are tested for emptiness first: `if not candidates: return {}`
+        bagM = T.strip(M[2])
+        with_m = [r for r in s.returns if T.contains((r.term,), M)]
+        def same_bag(x):
+            x = T.strip(x)
+            return x[0] == "bag" and bagM[0] == "bag" and x[1] == bagM[1]
+        empties = [r for r in s.returns if not T.contains((r.term,), M) and any(T.guard_term(g)[0] == "not" and same_bag(T.guard_term(g)[1]) for g in r.guards)]
+        guarded = with_m and all(any(same_bag(T.guard_term(g)) for g in r.guards) for r in with_m)
+        if guarded and empties:
+            for r in empties:
+                v0 = T.strip(r.term)
+                if v0 != ("dict", ()) and not (v0[0] == "call" and v0[1] == T.glob("dict") and not v0[2]):
+                    pr.append(f"returns {T.show(v0)[:50]} instead of {{}} when nothing is old enough")
+            for r in with_m:
+                v1 = T.strip(r.term)
+                if v1 not in (("idx", outs, M), call(("attr", outs, "get"), M), call(("attr", outs, "get"), M, ("dict", ()))):
+                    pr.append(f"returns {T.show(v1)[:60]} instead of the data stored under the floor key")
+            return pr, None
         pr.append("max() without default: ValueError when no entry is old enough instead of {}")
         return pr, None
     FK = T.var("§floor-key")
